@@ -362,16 +362,16 @@ def evaluate_hiers(ctx, hiers, with_model=True):
                     ctx.candidate(dict(case, cls=i, base=j, call="c.%s" % c07.call_txt(*beh)[2:]),
                                   "accepted, but for %s the call %s binds to the base-class function and raises TypeError for the override"
                                   % (where, "c.%s%s" % (attr, c07.call_txt(*beh)[1:])),
-                                  cls=c07.pick_class(dcls, ["staticFirst", "posKwClash", "starKwClash"]), conforms=conforms, stream="hier")
+                                  cls=c07.pick_class(dcls, ["posKwClash", "starKwClash"]), conforms=conforms, stream="hier")
                 if typ is not None:
                     npos, ks, key, S, T = typ
                     ctx.candidate(dict(case, cls=i, base=j, call="c.%s%s" % (attr, c07.call_txt(npos, ks)[1:]), argument=list(key)),
                                   "accepted, but for %s in %s the argument %s lands on %s in the base-class function and on %s in the override"
                                   % (where, "c.%s%s" % (attr, c07.call_txt(npos, ks)[1:]), key, S, T),
-                                  cls=c07.pick_class(dcls, ["staticFirst", "posKwClash"]), conforms=conforms, stream="hier")
+                                  cls=c07.pick_class(dcls, ["posKwClash"]), conforms=conforms, stream="hier")
                 if not c07.incl(child[1][1], base[1][1]):
                     ctx.candidate(dict(case, cls=i, base=j), "accepted, but for %s the return annotation %s is not included in %s"
-                                  % (where, child[1][1], base[1][1]), cls=c07.pick_class(dcls, ["staticFirst"]), conforms=conforms, stream="hier")
+                                  % (where, child[1][1], base[1][1]), cls=None, conforms=conforms, stream="hier")
 
 
 def gen_hiers(ctx):
